@@ -421,9 +421,10 @@ PROPS["C19"] = {
     "modules": ["TaffyVerif.Props.C19"],
     "theorems": [
         "C19.leaf_root_spec", "C19.leaf_root_spec_no_ratio",
-        "C19.corner_ratio_both_sizes", "C19.corner_ratio_max_height", "C19.corner_ratio_max_height_block",
-        "C19.corner_ratio_content_box", "C19.corner_ratio_floored_width",
-        "C19.measure_called_once", "C19.measure_args", "C19.leaf_calls", "C19.leaf_early_return",
+        "C19.fixed_ratio_both_sizes", "C19.fixed_ratio_max_height", "C19.fixed_ratio_content_box",
+        "C19.fixed_ratio_auto_max_height",
+        "C19.corner_block_root_max_transfer", "C19.corner_ratio_floored_width", "C19.corner_negative_padding",
+        "C19.measure_called_once", "C19.measure_args", "C19.leaf_calls", "C19.leaf_early_return", "C19.leaf_run_modes_agree",
         "C19.leaf_hidden_mode_panics",
         "C19.measure_only_childless_boxes", "C19.dispatch_childless", "C19.no_measure_when_hidden", "C19.display_none_root",
         "C19.size_floor", "C19.min_wins_width", "C19.min_wins_height",
@@ -439,7 +440,8 @@ PROPS["C19"] = {
             "context; per node: was the measure closure invoked with that node id. Fixed witnesses for every excluded corner run first. "
             "Non-trivial = a box-generating case; distinct = distinct request/answer transcripts. Monitor: Spec.leafBox / "
             "Spec.leafMeasureCalls evaluated exactly over the rationals against the implementation's answer (all generated inputs are "
-            "small dyadics, so f32 arithmetic is exact); cases outside the theorem's hypotheses are answered `ok excluded:<corner>`.",
+            "small dyadics, so f32 arithmetic is exact); cases outside the theorem's hypotheses in which the specification nevertheless holds are answered `ok excluded:<corner> "
+            "spec-holds`; where it does not, the corner's tag is reported (known findings).",
     "trusted_base": [
         "models of src/compute/leaf.rs, compute_root_layout (src/compute/mod.rs) and the dispatch of TaffyView::compute_child_layout "
         "(src/tree/taffy_tree.rs) are hand-written (Model/Leaf.lean, Model/Root.lean); tied to the code by bit-exact comparison "
@@ -450,10 +452,12 @@ PROPS["C19"] = {
     ],
     "assumptions": [
         "theorems are over exact rationals; f32 rounding is outside them (the correspondence run is bit-exact at Float32)",
-        "leaf_root_spec hypotheses: vertical padding+border >= 0; with an aspect ratio r: r > 0, the specified box is not flatter than "
-        "its ratio (width/r <= height), an undeclared height's width is not determined by the padding+border floor, and on a block root "
-        "max-size has both axes definite or neither. Each excluded corner is proved to differ from the specification on a concrete "
-        "witness (C19.corner_*) and replayed on the implementation (fixed cases).",
+        "leaf_root_spec hypotheses (model of leaf.rs after repair 0f21303): vertical padding+border >= 0 (invalid CSS otherwise); with an "
+        "aspect ratio: on a block root max-size has both axes definite or neither (known finding c19-root-max-transfer), and an "
+        "undeclared height's width is not determined by the padding+border floor (known finding c19-ratio-unfloored-width). Each "
+        "remaining corner is proved to differ from the specification on a concrete witness (C19.corner_*), replayed on the "
+        "implementation (fixed cases) and, where it is a violation of the statement, reported as KNOWN-FINDING by the "
+        "implementation-side oracle and the monitor; the three witnesses of the repaired defect are pinned (C19.fixed_*).",
     ],
     "level_text": "For every single-node style, measure function and available space (over exact rationals): the root's unrounded layout "
                   "and the list of measure-function calls computed by the line-by-line model of compute_root_layout + dispatch + "
@@ -464,10 +468,11 @@ PROPS["C19"] = {
                   "leaf, with no known dimension and the specified content-box space, never for display:none or in hidden mode, and the "
                   "dispatch reaches the measure closure only for childless box-generating nodes; compute_leaf_layout calls it at most "
                   "once, not at all on the ComputeSize early-return path, and panics before calling it in hidden run mode. Size >= "
-                  "padding+border and min-wins-over-max hold unconditionally (height: without aspect ratio).",
+                  "padding+border and min-wins-over-max hold unconditionally in both axes.",
     "level_note": "Trusted: Lean kernel; hand-written models (validated by the bit-exact correspondence run) and my specification. "
-                  "Five aspect-ratio corners in which leaf.rs l.149 / the root-vs-leaf max-size transfer depart from the specification "
-                  "are excluded by explicit hypotheses, each with a proved witness. Axioms: propext, Classical.choice, Quot.sound.",
+                  "Two aspect-ratio corners (root-vs-leaf max-size transfer on block roots; ratio applied to the unfloored width) remain "
+                  "as explicit hypotheses with proved witnesses and are reported as known findings. Axioms: propext, Classical.choice, "
+                  "Quot.sound.",
     "technique": "Lean 4 proof of model = declarative specification over Rat + differential correspondence (layouts and measure-call "
                  "arguments) with the real TaffyTree and compute_leaf_layout",
 }
@@ -570,6 +575,7 @@ HOOK_COMMITS = [
     "79decb2",
     "b64c8aa",
     "77857cc",
+    "47836dd",
 ]
 
 _pending = "check not built yet in this revision of /verif (planned, see DESIGN.md §8)"
